@@ -653,6 +653,18 @@ pub(crate) async fn fashare(
             if dm_k[k][r][0] > 1 {
                 return Err(Error::InvalidBitValue);
             }
+            // The claimed bit selects which of d0/d1 we open, so it must verify against our key first.
+            let start = 1 + (if i > k { i - 1 } else { i }) * 16;
+            let Ok(mac) = dm_k[k][r][start..start + 16]
+                .try_into()
+                .map(u128::from_be_bytes)
+            else {
+                return Err(Error::ConversionErr);
+            };
+            let (_, key) = xishares[l + r].1.0[k];
+            if mac != key.0 ^ if dm_k[k][r][0] != 0 { delta.0 } else { 0 } {
+                return Err(Error::AShareWrongMAC);
+            }
             bi[r] ^= dm_k[k][r][0] != 0;
         }
         di_bi[r] = if bi[r] { d1[r] } else { d0[r] };
